@@ -95,6 +95,16 @@ def main(tier):
                 if "algworst" in rr:
                     worst_alg = max(worst_alg, gl.num(rr, "algworst"))
                     algcols += int(rr["algcols"])
+    # process history: extrapolated and plain cycles of every type, with every smoothing mode of the extrapolated cycle (implicit,
+    # full-grid, combined before its switch) as the earlier case of the same process
+    reps = []
+    for cyc, extr in itertools.product((0, 1, 2), (0, 1, 2, 3)):
+        cfg = c01.base(strat=1, dirbc=cyc % 2, extr=extr, cycle=cyc, geom=1, prob=2, alpha=2, beta=1)
+        cfg.update(nr_exp=4, ntheta_exp=5, maxlev=-1, mode="cycle", pre=1, post=1, seed=common.SEED, do_exact=(1 if extr in (0, 1) else 0), do_alg=0)
+        cfg.pop("indep", None)
+        name = "%s-cycle, extrapolation %d" % (CYC[cyc], extr)
+        reps.append((name, gl.line_of("h", cfg)))
+    hist_cov = gl.process_history(rel, reps, rep, "cycle")
     cov = {
         "states": len(cs), "transitions": transitions, "traces_validated_against_impl": transitions,
         "evaluations": len(cs), "distinct_nontrivial": len(cs),
@@ -108,12 +118,15 @@ def main(tier):
         "samples": [c01.short(cs[0]), c01.short(cs[-1])],
         "exhaustive": True,
     }
+    cov.update(hist_cov)
     return rep.finish(cov, ["dense Gaussian elimination (harness) for the reference solution", "the extrapolated system: (Au)_i = f_i at "
                             "fine-only nodes, 4(Au)_i - (A_c J u)_c = 4 f_i - (f_c)_c at nodes shared with the coarse grid"])
 
 
 def replay(path):
     rp = json.load(open(path))["replay"]
+    if rp.get("kind") == "process-history":
+        return gl.replay_process_history(_build()[0], rp, PID, path)
     rel, san = _build()
     cfg = rp["config"]
     b = san if rp.get("build") == "san" else rel
